@@ -29,7 +29,22 @@ func TestC17(t *testing.T) {
 		k := v.App.CfevestingKeeper
 		nowS := nsTime(v.NowNs).Unix()
 		model := map[string]*linAcc{}
+		sentToRecorded := 0
 		recordedNonVesting := 0
+		var recordedAbsent []sdk.AccAddress // recorded in the genesis file although no account exists there (yet)
+		// freshOrRecorded picks the recipient of a send / split: a never used address or, sometimes, an
+		// address the genesis file already records although it has no account - the operation's own
+		// lineage must then replace the stale record
+		freshOrRecorded := func(t *rapid.T) sdk.AccAddress {
+			if len(recordedAbsent) > 0 && rapid.IntRange(0, 2).Draw(t, "toRecordedAbsent") == 0 {
+				i := rapid.IntRange(0, len(recordedAbsent)-1).Draw(t, "whichRecorded")
+				a := recordedAbsent[i]
+				recordedAbsent = append(recordedAbsent[:i:i], recordedAbsent[i+1:]...)
+				sentToRecorded++
+				return a
+			}
+			return v.NextFresh()
+		}
 		var order []string // creation order of vesting accounts
 		var hist []string
 		note := func(f string, a ...interface{}) { hist = append(hist, fmt.Sprintf(f, a...)) }
@@ -86,6 +101,7 @@ func TestC17(t *testing.T) {
 			switch kind {
 			case 0:
 				addr = v.NextFresh() // no account at all
+				recordedAbsent = append(recordedAbsent, addr)
 			case 1:
 				addr = KeyAcc(6 + i).Addr // a plain funded account
 			default:
@@ -205,6 +221,12 @@ func TestC17(t *testing.T) {
 			}
 			from := mustAddr(order[idx])
 			to := v.NextFresh()
+			if model[from.String()].traced {
+				// (a split out of an account the module does not record writes no record at all, so a record
+				// that a genesis file holds for the recipient's address would simply stay: remark R-STALETRACE;
+				// such recipients are therefore only drawn for recorded senders)
+				to = freshOrRecorded(t)
+			}
 			locked := v.App.BankKeeper.LockedCoins(v.Ctx, from).AmountOf(Denom)
 			var res MsgResult
 			toStr := spell(t, to)
@@ -245,7 +267,7 @@ func TestC17(t *testing.T) {
 		t.Repeat(map[string]func(*rapid.T){
 			"send": func(t *rapid.T) {
 				p := pools[rapid.IntRange(0, len(pools)-1).Draw(t, "pool")]
-				to := v.NextFresh()
+				to := freshOrRecorded(t)
 				amt := sdk.NewInt(int64(rapid.IntRange(0, 500).Draw(t, "amt")))
 				res := v.Run(&vestingtypes.MsgSendToVestingAccount{Owner: p.owner.String(), ToAddress: spell(t, to), VestingPoolName: p.name, Amount: amt, RestartVesting: rapid.Bool().Draw(t, "restart")})
 				note("send pool=%s/%s genesis=%v to=%s amt=%s ok=%v", p.owner, p.name, p.genesis, to, amt, res.OK())
@@ -309,6 +331,9 @@ func TestC17(t *testing.T) {
 		}
 		if maxDepthG >= 4 || maxDepthN >= 4 {
 			cl = append(cl, "chain_depth_ge4")
+		}
+		if sentToRecorded > 0 {
+			cl = append(cl, "recipient_already_recorded_in_genesis")
 		}
 		if recordedNonVesting > 0 {
 			cl = append(cl, "recorded_address_that_is_no_continuous_vesting_account")
